@@ -2,7 +2,7 @@ HOOK_COMMITS = ["7165ce5"]
 NOTES = ("Every check is generated-input search (pgregory.net/rapid; native go fuzzing only in thorough tiers) against an explicit oracle; "
          "evidence files are written by bin/verifrun from the per-shard statistics of the test binaries. Exit 2 = inconclusive (build failure, watchdog, harness error).")
 ENGINES = [
-    {"name": "netsim", "path": "harness/netsim", "serves_properties": ["C01", "C02", "C03", "C19"],
+    {"name": "netsim", "path": "harness/netsim", "serves_properties": ["C01", "C02", "C03", "C05", "C06", "C19"],
      "kind_free_text": "real ChainService (public API) against scripted raw-wire peers over in-memory connections inside a testing/synctest bubble (virtual time, quiescence barrier); rapid-generated worlds and scripts"},
     {"name": "hdrstore", "path": "harness/checks/hdrstore", "serves_properties": ["C07", "C08"],
      "kind_free_text": "rapid state machine over the real header stores with a list model; database and file fault injection; crash-image enumeration"},
@@ -41,6 +41,12 @@ META = {
          "note": "Trusts synctest; within one instant only causally forced orders are used."},
  "C19": {"engine": "netsim", "technique": "property-based testing (rapid) of a network simulation, oracle = replay of the event stream == committed chain, commit stamps, backlog comparison",
          "text": "Generated fork-biased scripts with an early subscriber and backlog probes (at quiescence and mid-batch); the event stream is replayed and compared with the committed chain at every quiescent point. Exploration only; the after-commit rule is a race-based external observation.",
+         "note": NETSIM_NOTE},
+ "C05": {"engine": "netsim", "technique": "property-based testing (rapid) of a network simulation with edited response streams, oracle = independent recomputation of the filter header against the committed one, over return value, cache and database",
+         "text": "Generated edits of the peers' cfilter response streams and generated GetCFilter calls (batching modes, range boundaries, cache sizes, persistence) against the real client on pre-filled stores. Exploration only.",
+         "note": NETSIM_NOTE},
+ "C06": {"engine": "netsim", "technique": "property-based testing (rapid) of a network simulation with edited response streams, oracle = independent merkle-root / witness-commitment recomputation, ban set",
+         "text": "Generated edits of the peers' block responses (merkle / witness mutations, other blocks, duplicates) and generated, partly concurrent GetBlock calls against the real client. Exploration only.",
          "note": NETSIM_NOTE},
 }
 NOT_APPLICABLE = {}
